@@ -2,6 +2,7 @@ import CssVerif.Lemmas.Ns
 import CssVerif.Lemmas.NsShare
 import CssVerif.Lemmas.NsCalls
 import CssVerif.Lemmas.NsStray
+import CssVerif.Lemmas.NsSync
 /-!
 # C15 — namespace declarations and namespaced selectors stay consistent
 
@@ -1189,6 +1190,15 @@ theorem wgood_unshared_run (ops : List WOp) : ∀ (w : World), WGood w → ¬ St
     obtain ⟨h1, h2⟩ := wgood_unshared_step w op h hs hall.1
     exact ih _ h1 h2 hall.2
 
+/-- T15.5 / T15.3: outside the region, every list that has the followed object writes it with its own sheet's
+mapping — the object is written like any other rule of that sheet, so `serialised_form` / `reresolve_partial`
+apply to it unchanged -/
+theorem unshared_object_written_with_its_sheet (w : World) (o : Obj) (side : Bool) (k : Nat)
+    (ho : w.obj = some o) (hs : ¬ Stray w) (hp : o.pos side ≠ none) :
+    w.objSerDict o k = view (w.sheet side) := by
+  have := not_stray_iff.mp hs o ho side hp
+  simp [World.objSerDict, this]
+
 /-- non-vacuity: the proper move is admissible from the witness world, the sharing step is not -/
 example : ¬ Stray W2.w0 ∧
     WAllOkUnshared W2.w0 [.grab false 1 W2.pa, .on false (.delRule 1), .share true none true,
@@ -1217,5 +1227,197 @@ example : ¬ Stray W2.w0 ∧
     simp [Obj.pos] at hp
   · exact ⟨{ sels := [[.q .typeSel (.uri W.u1) W.a]], owner := some false, own := [[(W.p, W.u1)]],
              posA := some 0, posB := none }, by decide, by decide⟩
+
+/-- T15.5 (coherence of the two-sheet model): the rank recorded for the followed object is where BOTH rule lists
+show its selectors (`Sync`), and EVERY operation of the model keeps it so: namespace operations on either sheet
+(with their roll-backs), `parse`, `selectorText =` on the object and on other rules, insertion into @media,
+`deleteRule` / `insertRule` of other rules in front of or behind the object (the rank shifts), deletion of the object
+through one list, `grab`, `share`. For every world, no guard. -/
+theorem sync_step (w : World) (op : WOp) (h : Sync w) : Sync (wstep w op).1 := by
+  cases op with
+  | objSel sels =>
+    simp only [wstep]
+    cases ho : w.obj with
+    | none => exact h
+    | some o => exact sync_objSetSel sels h ho
+  | share to idx io =>
+    simp only [wstep]
+    cases ho : w.obj with
+    | none => exact h
+    | some o =>
+      simp only
+      cases hp : o.pos to with
+      | some k => exact h
+      | none =>
+        simp only
+        split
+        · rename_i j hj
+          obtain ⟨e1, e2⟩ := insertStyle_ok hj
+          rw [e1]
+          exact sync_share h ho e2
+        · exact h
+  | grab side i sels =>
+    simp only [wstep]
+    split
+    · rename_i y hn hi
+      split
+      · exact h
+      · cases hr : resolveSels (view (w.sheet side)) sels with
+        | error e => exact h
+        | ok x => exact sync_grab hn hi rfl rfl rfl
+    · exact h
+  | on side op =>
+    cases op with
+    | parse init src =>
+      simp only [wstep]
+      cases ho : w.obj with
+      | none =>
+        simp only
+        apply sync_of_no_obj
+        rw [World.setSheet_obj]; exact ho
+      | some o => exact h
+    | insStyleObj x idx io => exact h
+    | rawDel i => exact h
+    | insStyleText x idx io =>
+      simp only [wstep]
+      split
+      · rename_i j hj
+        -- the step went through `insertStyle`
+        have hstep : ∃ y, step (w.sheet side) (.insStyleText x idx io) =
+            insertStyle (w.sheet side) (.style y) idx io := by
+          simp only [step] at hj ⊢
+          split at hj
+          · simp at hj
+          · split at hj
+            · simp at hj
+            · rename_i h1 h2
+              cases hr : resolveSels (view (w.sheet side)) x with
+              | error e => simp [hr] at hj
+              | ok y => exact ⟨y, by rw [if_neg h1, if_neg h2]⟩
+        obtain ⟨y, hy⟩ := hstep
+        rw [hy] at hj ⊢
+        obtain ⟨e1, e2⟩ := insertStyle_ok hj
+        rw [e1]
+        cases ho : w.obj with
+        | none => simp only; exact sync_of_no_obj (by rw [World.setSheet_obj]; exact ho)
+        | some o => exact sync_insert_other h ho rfl e2
+      · rename_i hne
+        -- refused: the list is unchanged
+        have : (step (w.sheet side) (.insStyleText x idx io)).1 = w.sheet side := by
+          cases hr : (step (w.sheet side) (.insStyleText x idx io)).2 with
+          | err e => exact rejected_unchanged _ _ e (by intro i src hh; cases hh) hr
+          | ok ret =>
+            cases ret with
+            | some j => exact absurd hr (hne j)
+            | none =>
+              exfalso
+              simp only [step] at hr
+              split at hr
+              · simp at hr
+              · split at hr
+                · simp at hr
+                · cases hres : resolveSels (view (w.sheet side)) x with
+                  | error e => simp [hres] at hr
+                  | ok y =>
+                    simp only [hres] at hr
+                    rcases insertStyle_cases (w.sheet side) (.style y) idx io with ⟨j, hj⟩ | ⟨e, he⟩
+                    · rw [hj] at hr; cases hr
+                    · rw [he] at hr; cases hr
+        rw [this, World.setSheet_self]; exact h
+    | insMediaText i x idx =>
+      have hb : Sync (w.setSheet side (step (w.sheet side) (.insMediaText i x idx)).1) := by
+        simp only [step]
+        cases hi : (w.sheet side)[i]? with
+        | none => simp only; rw [World.setSheet_self]; exact h
+        | some r =>
+          cases r with
+          | media rs =>
+            simp only
+            split
+            · rw [World.setSheet_self]; exact h
+            · split
+              · rw [World.setSheet_self]; exact h
+              · cases hr : resolveSels (view (w.sheet side)) x with
+                | error e => simp only; rw [World.setSheet_self]; exact h
+                | ok y => exact sync_set_other h hi rfl rfl (objIndex_ne_of_media h hi)
+          | ns n => simp only; rw [World.setSheet_self]; exact h
+          | style y => simp only; rw [World.setSheet_self]; exact h
+          | other y => simp only; rw [World.setSheet_self]; exact h
+      simp only [wstep]
+      cases ho : w.obj with
+      | none => exact hb
+      | some o =>
+        simp only
+        split
+        · exact sync_with_owner (some side) hb (by rw [World.setSheet_obj]; exact ho)
+        · exact hb
+    | setSelText i sels =>
+      simp only [wstep]
+      split
+      · cases ho : w.obj with
+        | none => exact h
+        | some o => exact sync_objSetSel sels h ho
+      · rename_i hne
+        simp only [step]
+        split
+        · rename_i y hi
+          split
+          · rw [World.setSheet_self]; exact h
+          · cases hr : resolveSels (view (w.sheet side)) sels with
+            | error e => simp only; rw [World.setSheet_self]; exact h
+            | ok x => exact sync_set_other h hi rfl rfl hne
+        · rw [World.setSheet_self]; exact h
+    | delRule i =>
+      cases hd : deleteRule (w.sheet side) i with
+      | error e =>
+        have : step (w.sheet side) (.delRule i) = (w.sheet side, .err e) := by simp [step, hd]
+        simp only [wstep, this]
+        rw [World.setSheet_self]; exact h
+      | ok s' =>
+        obtain ⟨x, hx, rfl⟩ := deleteRule_ok hd
+        have hstep : step (w.sheet side) (.delRule i) = ((w.sheet side).eraseIdx i, .ok none) := by
+          simp [step, hd]
+        simp only [wstep, hstep, hx]
+        cases hns : x.isNs with
+        | true =>
+          simp only [if_true]
+          have : ∃ n, x = .ns n := by cases x <;> simp_all [Rule.isNs]
+          obtain ⟨n, rfl⟩ := this
+          have hb := denotation_stable (w.sheet side) (.delRule i)
+            (Or.inr (Or.inr (Or.inr (Or.inr (Or.inr (Or.inl ⟨i, n, rfl, hx⟩))))))
+          rw [hstep] at hb
+          exact sync_of_body_eq side _ h hb
+        | false =>
+          simp only [Bool.false_eq_true, if_false]
+          cases ho : w.obj with
+          | none => simp only; exact sync_of_no_obj (by rw [World.setSheet_obj]; exact ho)
+          | some o =>
+            simp only
+            split
+            · exact sync_del_self h ho
+            · rename_i hne; exact sync_del_other h ho hx hns hne
+    | insNs p u idx io =>
+      exact sync_ns_op side _ h (denotation_stable _ _ (Or.inl ⟨p, u, idx, io, rfl⟩))
+    | insNsText p u c0 c1 c2 idx io =>
+      exact sync_ns_op side _ h (denotation_stable _ _ (Or.inr (Or.inl ⟨p, u, c0, c1, c2, idx, io, rfl⟩)))
+    | setNs p u =>
+      exact sync_ns_op side _ h (denotation_stable _ _ (Or.inr (Or.inr (Or.inl ⟨p, u, rfl⟩))))
+    | delNs p =>
+      exact sync_ns_op side _ h (denotation_stable _ _ (Or.inr (Or.inr (Or.inr (Or.inl ⟨p, rfl⟩)))))
+    | setPrefix i q =>
+      exact sync_ns_op side _ h (denotation_stable _ _ (Or.inr (Or.inr (Or.inr (Or.inr (Or.inl ⟨i, q, rfl⟩))))))
+    | setNsText i p u c0 c1 c2 =>
+      exact sync_ns_op side _ h (denotation_stable _ _
+        (Or.inr (Or.inr (Or.inr (Or.inr (Or.inr (Or.inr (Or.inl ⟨i, p, u, c0, c1, c2, rfl⟩))))))))
+
+/-- … hence along every history from two parsed sheets -/
+theorem sync_run (ops : List WOp) : ∀ (w : World), Sync w → Sync (wrun w ops) := by
+  induction ops with
+  | nil => intro w h; exact h
+  | cons op t ih => intro w h; exact ih _ (sync_step w op h)
+
+/-- non-vacuity: a world without followed object is coherent, hence so is every world reached from it -/
+example : Sync W2.w0 ∧ Sync W2.shared :=
+  ⟨sync_of_no_obj rfl, sync_run _ _ (sync_of_no_obj rfl)⟩
 
 end CssVerif.C15
